@@ -12,10 +12,11 @@ ap.add_argument("tag"); ap.add_argument("property")
 ap.add_argument("--runs", default="0"); ap.add_argument("--tier", default="quick")
 ap.add_argument("--needs", default=""); ap.add_argument("--skip-demo", action="store_true")
 ap.add_argument("--base", default="")
+ap.add_argument("--src", default="")
 a = ap.parse_args()
 d = "/verif/seeded/%s" % a.tag
 os.makedirs(d, exist_ok=True)
-src = "/tmp/wt/%s" % a.tag
+src = a.src or "/tmp/wt/%s" % a.tag
 for fn, dst in (("patch_%s.diff" % a.tag, "patch.diff"), ("demo_%s.py" % a.tag, "demo.py")):
     if not os.path.exists(os.path.join(d, dst)):
         shutil.copy(os.path.join(src, fn), os.path.join(d, dst))
@@ -25,6 +26,8 @@ meta.update({"id": a.tag, "property": a.property})
 base = a.base or meta.get("base_commit") or "HEAD"
 if a.needs:
     meta["needs_to_manifest"] = a.needs
+if a.base:
+    meta["base_commit"] = a.base
 env = dict(os.environ, OMP_NUM_THREADS="1", MKL_NUM_THREADS="1", PYTHONWARNINGS="ignore")
 if not a.skip_demo:
     scratch = tempfile.mkdtemp(prefix="seed_", dir="/tmp")
